@@ -11,7 +11,7 @@
 (* One action per command (Step, instantiated by the variant's command): enabled when files of    *)
 (* the right kind exist for every input role; its effect is CliOps!Effect (A-layer, the _cmd_*    *)
 (* wrappers case for case).  DesignOK: the A-layer satisfies the documented clauses (P-layer) in  *)
-(* every reachable state, except for the listed known defects.  The dump / the simulated          *)
+(* every reachable state.  The dump / the simulated                                               *)
 (* behaviours of this model are what the harness executes against the real command line.          *)
 EXTENDS CliOps
 CONSTANTS MaxSteps,   \* commands per behaviour
@@ -77,13 +77,13 @@ Next == ChooseVariant \/ ChooseInputs \/ Run
 Spec == Init /\ [][Next]_vars
 
 LastEvent == LET h == hist[Len(hist)] IN MkEvent(h.v, h.ins, h.osel, h.oname, Len(hist))
-(* A |= P: what the wrappers do satisfies what is documented (modulo the listed defects) *)
+(* A |= P: what the wrappers do satisfies what is documented (no defect of the command layer is exempt:   *)
+(* KnownTriggers = {}; with CliOps!LegacyDefects non-empty this invariant fails on the repaired defects)   *)
 DesignOK == hist = <<>> \/ pend.st # 0 \/
             \A c \in ClausesOf(LastEvent) :
                 \/ Holds(c, pfs, pmeta, LastEvent, last)
                 \/ \E t \in KnownTriggers : TriggerHolds(t, LastEvent, pmeta)
-(* the same without the exemption: its counterexamples are the listed defects seen in the model *)
-DesignStrict == hist = <<>> \/ pend.st # 0 \/ \A c \in ClausesOf(LastEvent) : Holds(c, pfs, pmeta, LastEvent, last)
+DesignStrict == DesignOK
 (* session-level facts *)
 TypeOK == /\ \A x \in fs : \A y \in fs : x[1] = y[1] => x = y                   \* one content per name
           /\ \A m \in meta : Exists(fs, m.name)                                    \* bookkeeping only of files that exist
